@@ -665,6 +665,35 @@ func c14(run *ev.Run, tier string) {
 		}
 	}
 	run.Set("archlinux_pkgver_compositions_checked", archChecked)
+	// apk: build metadata is carried as a post-release suffix; the five suffixes
+	// apk itself knows (p, cvs, svn, git, hg) are kept as written, anything else
+	// gets a "p" in front - no component is lost or gains another meaning
+	for _, meta := range []string{"hg4f2a91c", "git.abc", "svn12", "cvs1", "p5", "build5", "0", "20240102"} {
+		for _, viaVersion := range []bool{false, true} {
+			s := &gen.Spec{Name: "ordpkg", Arch: "amd64", Version: "1.2.3", VersionMetadata: meta, Maintainer: "V <v@example.com>", Description: "d", MTime: 1500000000}
+			if viaVersion {
+				s.Version, s.VersionMetadata = "1.2.3+"+meta, ""
+			}
+			s.Contents = []*gen.Content{{Src: payload, Dst: "/opt/ordpkg/p.txt"}}
+			run.Case(fmt.Sprintf("apk-metadata-suffix|%s|in-version=%v", meta, viaVersion), true)
+			res := buildYAML(s.YAML(), "apk")
+			if res.Err != nil || res.Panic != "" {
+				run.Violate("C14/apk/build-error", map[string]any{"metadata": meta, "error": fmt.Sprint(res.Err, res.Panic)})
+				continue
+			}
+			p := dec.Decode("apk", res.Bytes, false)
+			got, _ := p.MetaGet("pkgver")
+			want := "1.2.3-p" + meta
+			for _, known := range []string{"p", "cvs", "svn", "git", "hg"} {
+				if strings.HasPrefix(meta, known) {
+					want = "1.2.3-" + meta
+				}
+			}
+			if got != want {
+				run.Violate("C14/apk/version-component-lost-or-duplicated/metadata-suffix", map[string]any{"metadata": meta, "pkgver": got, "want": want})
+			}
+		}
+	}
 	// a custom ipk field named like the version field does not add a second,
 	// conflicting version to the control file
 	for _, key := range []string{"Version", "version", "VERSION"} {
